@@ -1,7 +1,7 @@
 SPECIFICATION TSpec
 CONSTANTS
   Entities = {"E1", "E2", "E3"}
-  KeyIDs = {"K1", "K2", "K3"}
+  KeyIDs = {"K1", "K2", "K3", "KA"}
   Keys = {"P1", "P2", "P3", "P4"}
   PlainMembers = {}
   NestedMembers = {}
@@ -9,9 +9,11 @@ CONSTANTS
   NVals = {}
   UVals = {}
   Presentations = {}
+  ForeignForms = {"padded", "text", "scalar", "object", "list", "blank"}
+  EntityForms = {"blank"}
   Starts = {}
   MaxLen = 1000
   MaxSigns = 1000
-INVARIANTS Report Complete CompleteNet Sound SoundTamper OneKey SignPreserves UncoveredFree
+INVARIANTS Report Complete CompleteNet Sound SoundTamper OneKey SignPreserves UncoveredFree ForeignEntryLocal ForeignEntityLocal
 POSTCONDITION TraceAccepted
 CHECK_DEADLOCK FALSE
